@@ -73,3 +73,40 @@ Proof.
   induction l as [|x l IH]; simpl; [split; [discriminate|tauto]|].
   rewrite orb_true_iff, IH, str_eqb_eq. split; intros [H|H]; auto.
 Qed.
+
+(* ---------------------------------------------------------------- generic tree facts *)
+
+Lemma item_children_ind (P : item -> Prop) :
+  (forall t, Forall P (children t) -> P t) -> forall t, P t.
+Proof.
+  intros H. induction t using item_ind'; apply H; simpl; repeat constructor; assumption.
+Qed.
+
+Lemma children_rebuild t cs :
+  length cs = length (children t) -> children (rebuild t cs) = cs.
+Proof.
+  unfold rebuild. destruct t; simpl; intros Hl;
+    repeat (destruct cs as [|? cs]; simpl in Hl; try discriminate; try reflexivity).
+Qed.
+
+Lemma meta_rebuild t cs : meta_of (rebuild t cs) = meta_of t.
+Proof.
+  unfold rebuild. destruct t; simpl;
+    repeat (destruct cs as [|? cs]; simpl; try reflexivity).
+Qed.
+
+Lemma cls_rebuild t cs : cls_of (rebuild t cs) = cls_of t.
+Proof.
+  unfold rebuild. destruct t; simpl;
+    repeat (destruct cs as [|? cs]; simpl; try reflexivity).
+Qed.
+
+Lemma meta_set_meta t m : meta_of (set_meta t m) = m.
+Proof. destruct t; reflexivity. Qed.
+
+Lemma children_set_meta t m : children (set_meta t m) = children t.
+Proof. destruct t; reflexivity. Qed.
+
+Lemma cls_set_meta t m : cls_of (set_meta t m) = cls_of t.
+Proof. destruct t; reflexivity. Qed.
+
